@@ -23,6 +23,7 @@ import ast
 from ..core import lua as L
 from ..core.index import unparse, walk_no_nested
 from ..core.report import AnalysisError, Finding, RuleResult
+from . import _expand as X
 from . import c14
 
 EXPLANATION = (
@@ -118,6 +119,24 @@ def rule_r2(ctx) -> RuleResult:
             rr.ok(MF + "." + name, "goes through expand_all_templates")
         else:
             rr.bad(Finding("C08.R2", LX, MF + "." + name, "expand_all_templates(...)", "does not expand through the calling page context", f.lineno))
+        # every value handed back to the module is a constant, the heading strip-marker form,
+        # or the result of expand_all_templates -- never the caller's raw text
+        for r in [n for n in walk_no_nested(f) if isinstance(n, ast.Return) and n.value is not None]:
+            v = r.value
+            hops = 0
+            while isinstance(v, ast.Name) and hops < 4:
+                nv = X.resolve_name(f.body, v.id, r.lineno if hops == 0 else v.lineno)
+                if nv is None:
+                    break
+                v = nv
+                hops += 1
+            calls = [unparse(c.func) for c in ast.walk(v) if isinstance(c, ast.Call)]
+            if isinstance(v, ast.Constant) or "expand_all_templates" in calls or "ctx.create_strip_marker" in calls:
+                rr.ok(MF + "." + name, "return " + unparse(v)[:60])
+            else:
+                rr.bad(Finding("C08.R2", LX, MF + "." + name, unparse(r),
+                               "frame:{} can return text that was not expanded in the calling page context (value: {})".format(name, unparse(v)[:60]),
+                               r.lineno))
     mf = ctx.fn(MF)
     msrc = unparse(mf)
     if "num = 1" in msrc and "k = num" in msrc and "num += 1" in msrc:
